@@ -54,6 +54,11 @@ def manager():
     return pm
 
 
+def magnitude_of(sc):
+    """Every second scenario perturbs by 2^-30 instead of 1/4: differences stay exact, but are far below 1e-8."""
+    return 2.0 ** -30 if (sum(sum(row) for row in sc["b"]) + sc["P"]) % 2 else MAGNITUDE
+
+
 def build_config(sc, **over):
     R = sc["R"]
     first, last = 0, (0 if R == 1 else R - 2)
@@ -71,9 +76,16 @@ def build_config(sc, **over):
             {"method": "cvar-constraint", "options": {"sort": 0, "percentile": 0.5}},
             {"method": "sort-constraint", "options": {"sort": 0, "first": first, "last": last}}],
         "gradient": {"number_of_perturbations": sc["P"], "perturbation_min_success": sc["pms"],
-                     "perturbation_magnitudes": MAGNITUDE, "merge_realizations": bool(sc["merged"])},
+                     "perturbation_magnitudes": magnitude_of(sc), "merge_realizations": bool(sc["merged"])},
         "samplers": [{"method": "rvdesign/design", "shared": bool(sc.get("shared", False))}],
     }
+    if (sc["R"] + sc["P"]) % 2 == 0:
+        # the ORDER of the configured filters is not part of the scenario: here the CVaR objective filter comes first
+        fl = cfg["realization_filters"]
+        fl[0], fl[1] = fl[1], fl[0]
+        swap = {0: 1, 1: 0}
+        cfg["objectives"]["realization_filters"] = [swap.get(m, m) for m in sc["flt"][:2]]
+        cfg["nonlinear_constraints"]["realization_filters"] = [swap.get(m, m) for m in sc["flt"][2:]]
     if sc.get("nsamp", 1) == 2:       # two samplers assigned to disjoint variable sets (variable 2 to the second one)
         cfg["samplers"] = cfg["samplers"] * 2
         cfg["gradient"]["samplers"] = [0, 1, 0][: sc["V"]]
@@ -110,6 +122,11 @@ class AffineEvaluator:
             col = self.nanF[r] if p < 0 else self.nanP[r][p]
             if col:
                 rows[i, col - 1] = np.nan
+        if context.active is not None:
+            # realizations flagged inactive as a whole need not be computed: this evaluator returns garbage for them
+            # (a failure stays a failure: only values that were computed are replaced)
+            idle = ~np.asarray(context.active, dtype=bool)[context.realizations]
+            rows[idle[:, None] & ~np.isnan(rows)] = 12345.0
         self.calls.append({"n": variables.shape[0], "perts": None if perts is None else perts.tolist()})
         return EvaluatorResult(objectives=rows[:, :2].copy(), constraints=rows[:, 2:].copy())
 
